@@ -19,7 +19,8 @@ RULE = (
     "from quantiles), integer, boolean and timestamp (incl. NaT) columns; 1..4 features of 1..3 dimensions; binning in "
     "{auto, unit} or explicit bin_specs of every supported kind (binWidth/origin, num/low/high, edges, centers, "
     "thresholds, max, min, sum, average, deviate, bag, fraction, cut); with and without time_axis; a partition of the "
-    "rows into 1..5 non-empty chunks.  Oracle: every returned histogram has entries == len(df); its document equals "
+    "rows into 1..5 non-empty chunks; in a third of the cases a frame with the same column names but other column "
+    "types is histogrammed first (results must not depend on earlier calls).  Oracle: every returned histogram has entries == len(df); its document equals "
     "(names stripped) that of a tree the harness builds independently from the returned bin_specs / var_dtype with the "
     "public constructors and fills from the columns with fill.numpy and, for frames of <= 12 rows, row by row "
     "(timestamps as int64 ns, NaT -> 0 as filling_utils.to_ns documents); make_histograms(chunk_i, features, bin_specs, "
@@ -116,7 +117,9 @@ def strategy(tier):
                 cols[c][0] = 1.0  # an all-NaN column has no quantiles to derive a binning from
         cuts = sorted(set(draw(st.lists(st.integers(1, max(1, n - 1)), max_size=4)))) if n > 1 else []
         return {"cols": cols, "features": [":".join(f) for f in feats], "binning": binning, "bin_specs": specs, "time_axis": "t1" if use_time else "", "cuts": cuts,
-                "index": draw(st.sampled_from(("default", "default", "offset", "reversed", "strings"))), "chunk_copy": draw(st.booleans())}
+                "index": draw(st.sampled_from(("default", "default", "offset", "reversed", "strings"))), "chunk_copy": draw(st.booleans()),
+                # another frame with the same column names but other column types may have been histogrammed before
+                "prime": draw(st.integers(0, 2)) == 0}
 
     return cases()
 
@@ -244,6 +247,20 @@ def check(case):  # noqa: PLR0915
     kw = {"features": list(case["features"]), "binning": case["binning"], "bin_specs": {k: (list(v) if isinstance(v, list) else dict(v)) for k, v in case["bin_specs"].items()}}
     if case["time_axis"]:
         kw["time_axis"] = case["time_axis"]
+    if case.get("prime"):
+        import pandas as pd  # noqa: PLC0415
+
+        twin_df = pd.DataFrame(
+            {
+                "f1": np.array([0 if (v != v or abs(v) == float("inf")) else int(v) for v in cols["f1"]], dtype=np.int64),
+                "f2": np.array(cols["b1"], dtype=bool),
+                "i1": np.array(cols["i1"], dtype=np.float64) + 0.5,
+                "b1": np.array(cols["i1"], dtype=np.int64),
+                "t1": df["t1"].to_numpy(),
+            }
+        )
+        with contextlib.suppress(Exception):  # only what it may leave behind matters here
+            quiet(make_histograms, twin_df, features=list(case["features"]), binning="unit", **({"time_axis": case["time_axis"]} if case["time_axis"] else {}))
     try:
         hists, features, bin_specs, time_axis, var_dtype = quiet(make_histograms, df, ret_specs=True, **kw)
     except ValueError as e:
